@@ -4,6 +4,7 @@ import ZipVerif.Lemmas.FaultAppend
 import ZipVerif.Lemmas.FaultVisit
 import ZipVerif.Lemmas.MRun
 import ZipVerif.Model.Interrupted
+import ZipVerif.Lemmas.FaultInterrupted
 import ZipVerif.Props.C05
 import ZipVerif.Props.C12
 /-
@@ -940,14 +941,161 @@ theorem io_propagates {α β} (s : WState) (m : M α) (kont : α → M (Except Z
 
 `Model/Interrupted.lean` instantiates the generic parsers (`G.openArchive`, `G.findContent`: the functions proved equal
 to the model's at `M`, `Lemmas/ShortRead`) at the monad `MI`, where `read_exact` / `read_to_end` are std's retry loops and
-`seek` is a bare call.  What is PROVED: the behaviour of the three loops (below).  What is only CHECKED (kernel, on the
-witness archive; by hand against the implementation on all 54 fault indices of `fault.read` on that archive): the
-composed `openArchiveI`.  NOT wired into the driver: an experiment doing so (entries read with a retrying `read_to_end`)
-disagreed with the harness on `fault.read` lines where the fault falls into the harness's own entry-reading loop, which
-does not retry - the consumer has to be modelled as the streaming ops do (`Consume`).  NOT proved:
-`openArchiveI = openArchive` on devices with hard failures in general (it needs one induction per parser, as
-`G.openArchive_M` did), and the fault calculus (`Clean` / `Tight` / `ErrOnFire`) for `MI`; the writer has no `MI`
-counterpart yet. -/
+`seek` is a bare call: `openArchiveI`, `findContentI`, and the entry reads `byIndexReadI` (consumer = std's `read_to_end` /
+`io::copy`: retries) and `byIndexReadB` (consumer = a hand-written `read` loop that does not retry - what the fault
+harness's `run_read` does; the driver answers `fault.read … kind=interrupted` from it).
+
+PROVED (helper c11c, `Lemmas/FaultInterrupted`): the relation `RI x y` between a hard-failure computation and its
+counterpart with std's convention - closed under bind / attempt / if / the primitives, established for every parser by
+the induction `G.openArchive_M` needed - gives, for `ZipArchive::new`, `find_content` and both entry reads, on EVERY device
+and fault index: equality with the hard-failure model when the device does not fail with `Interrupted`
+(`open_hard_kinds` …), and under an `Interrupted` fault the trichotomy not reached / absorbed by a retry loop (outcome,
+value, position of the failure-free run, one more call) / fired at a bare call and reported (`open_interrupted_trichotomy`
+…).  The C11 clause for ANY kind: `open_ok_is_faultfree_any_kind`, `read_ok_is_faultfree_any_kind`,
+`open_fault_outcome_any_kind`, `seekable_reader_no_panic_any_kind`.  Which calls are bare is a property of the run (the
+`seek`s); named ones: `open_first_seek_reported`, `find_content_first_seek_reported`; all of them on a witness:
+`open_interrupted_witness`.  The writer's `MI` counterpart: see `Model/InterruptedW.lean` if present in this tree. -/
+
+/-- **On a device that fails with any kind but `Interrupted` the model with std's convention IS the hard-failure
+model** - `ZipArchive::new`, `find_content`, both entry reads; every fault index, every device. -/
+theorem open_hard_kinds (fa : Option Nat) (d : Dev) (hk : d.fkind ≠ .interrupted) :
+    openArchiveI fa d = openArchive fa d ∧
+    (∀ f, findContentI f fa d = findContent f fa d) ∧
+    (∀ ext a i pw, byIndexReadI ext a i pw fa d = byIndexRead ext a i pw fa d) ∧
+    (∀ ext a i pw, byIndexReadB ext a i pw fa d = byIndexRead ext a i pw fa d) :=
+  ⟨openArchiveI_ri.hard fa d hk, fun f => (findContentI_ri f).hard fa d hk,
+   fun ext a i pw => (byIndexReadI_ri ext a i pw).hard fa d hk,
+   fun ext a i pw => (byIndexReadB_ri ext a i pw).hard fa d hk⟩
+
+/-- … and without a fault, whatever kind the device would fail with. -/
+theorem open_no_fault (d : Dev) :
+    openArchiveI none d = openArchive none d ∧
+    (∀ f, findContentI f none d = findContent f none d) ∧
+    (∀ ext a i pw, byIndexReadI ext a i pw none d = byIndexRead ext a i pw none d) ∧
+    (∀ ext a i pw, byIndexReadB ext a i pw none d = byIndexRead ext a i pw none d) :=
+  ⟨openArchiveI_ri.no_fault d, fun f => (findContentI_ri f).no_fault d,
+   fun ext a i pw => (byIndexReadI_ri ext a i pw).no_fault d,
+   fun ext a i pw => (byIndexReadB_ri ext a i pw).no_fault d⟩
+
+/-- **`ZipArchive::new` under one fault, `Interrupted` included - the trichotomy.**  (1) the fault is not reached: the
+failure-free run; (2) the device fails with `Interrupted` and the fault hit a call inside a `read_exact`: it is
+INVISIBLE - outcome, archive value, buffer and position of the failure-free run, one more I/O call; (3) the fault
+fired in the hard-failure run as well - a bare `seek` when the kind is `Interrupted`, any call otherwise -: the answer
+is the hard-failure model's, which is an error (`open_fired_fault_is_error`). -/
+theorem open_interrupted_trichotomy (k : Nat) (d : Dev) :
+    (¬ Fired k d (openArchive none d).2 ∧ openArchiveI (some k) d = openArchive none d) ∨
+    (Fired k d (openArchive none d).2 ∧ d.fkind = .interrupted ∧
+      openArchiveI (some k) d = ((openArchive none d).1, (openArchive none d).2.shift 1)) ∨
+    (Fired k d (openArchive none d).2 ∧ Fired k d (openArchive (some k) d).2 ∧
+      openArchiveI (some k) d = openArchive (some k) d ∧ ∃ e, (openArchiveI (some k) d).1 = .err e) := by
+  rcases openArchiveI_ri.interrupted k d with h | h | ⟨h1, h2, h3⟩
+  · exact Or.inl h
+  · exact Or.inr (Or.inl h)
+  · refine Or.inr (Or.inr ⟨h1, h2, h3, ?_⟩)
+    rw [h3]
+    exact openArchive_errOnFire k d h2
+
+/-- the same for `find_content` -/
+theorem find_content_interrupted_trichotomy (f : FileData) (k : Nat) (d : Dev) :
+    (¬ Fired k d (findContent f none d).2 ∧ findContentI f (some k) d = findContent f none d) ∨
+    (Fired k d (findContent f none d).2 ∧ d.fkind = .interrupted ∧
+      findContentI f (some k) d = ((findContent f none d).1, (findContent f none d).2.shift 1)) ∨
+    (Fired k d (findContent f none d).2 ∧ Fired k d (findContent f (some k) d).2 ∧
+      findContentI f (some k) d = findContent f (some k) d ∧ (findContentI f (some k) d).1 = .err (.io d.fkind)) := by
+  rcases (findContentI_ri f).interrupted k d with h | h | ⟨h1, h2, h3⟩
+  · exact Or.inl h
+  · exact Or.inr (Or.inl h)
+  · refine Or.inr (Or.inr ⟨h1, h2, h3, ?_⟩)
+    rw [h3]
+    exact (findContent_tight f).reports h2
+
+/-- … and for the entry reads, with a retrying consumer (`byIndexReadI`) and a bare one (`byIndexReadB`). -/
+theorem read_interrupted_trichotomy (ext : Ext) (a : Archive) (i : Nat) (pw : Option Bytes) (k : Nat) (d : Dev) :
+    ∀ y, (y = byIndexReadI ext a i pw ∨ y = byIndexReadB ext a i pw) →
+    (¬ Fired k d (byIndexRead ext a i pw none d).2 ∧ y (some k) d = byIndexRead ext a i pw none d) ∨
+    (Fired k d (byIndexRead ext a i pw none d).2 ∧ d.fkind = .interrupted ∧
+      y (some k) d = ((byIndexRead ext a i pw none d).1, (byIndexRead ext a i pw none d).2.shift 1)) ∨
+    (Fired k d (byIndexRead ext a i pw none d).2 ∧ Fired k d (byIndexRead ext a i pw (some k) d).2 ∧
+      y (some k) d = byIndexRead ext a i pw (some k) d ∧ (y (some k) d).1 = .err (.io d.fkind)) := by
+  intro y hy
+  have hri : RI (byIndexRead ext a i pw) y := by
+    rcases hy with rfl | rfl
+    · exact byIndexReadI_ri ext a i pw
+    · exact byIndexReadB_ri ext a i pw
+  rcases hri.interrupted k d with h | h | ⟨h1, h2, h3⟩
+  · exact Or.inl h
+  · exact Or.inr (Or.inl h)
+  · refine Or.inr (Or.inr ⟨h1, h2, h3, ?_⟩)
+    rw [h3]
+    exact (byIndexRead_tight ext a i pw).reports h2
+
+/-- **`open_ok_is_faultfree_any_kind`** - the C11 clause for `ZipArchive::new` at full strength, `Interrupted` included:
+`Ok` under one fault of ANY kind at ANY index carries the failure-free archive value, and the device is the
+failure-free one (bytes, position, calls) - or, when a retry loop absorbed an `Interrupted`, that device with exactly one
+more I/O call counted. -/
+theorem open_ok_is_faultfree_any_kind {k : Nat} {d d' : Dev} {a : Archive}
+    (h : openArchiveI (some k) d = (.ok a, d')) :
+    ∃ d0, openArchive none d = (.ok a, d0) ∧
+      (d' = d0 ∨ (d.fkind = .interrupted ∧ Fired k d d0 ∧ d' = d0.shift 1)) :=
+  openArchiveI_ri.ok_is_faultfree openArchive_errOnFire h
+
+/-- **`read_ok_is_faultfree_any_kind`** - the same for the entry reads (retrying or bare consumer) and
+`find_content`. -/
+theorem read_ok_is_faultfree_any_kind (ext : Ext) (a : Archive) (i : Nat) (pw : Option Bytes) (k : Nat) (d d' : Dev) :
+    (∀ r, byIndexReadI ext a i pw (some k) d = (.ok r, d') →
+      ∃ d0, byIndexRead ext a i pw none d = (.ok r, d0) ∧
+        (d' = d0 ∨ (d.fkind = .interrupted ∧ Fired k d d0 ∧ d' = d0.shift 1))) ∧
+    (∀ r, byIndexReadB ext a i pw (some k) d = (.ok r, d') →
+      ∃ d0, byIndexRead ext a i pw none d = (.ok r, d0) ∧
+        (d' = d0 ∨ (d.fkind = .interrupted ∧ Fired k d d0 ∧ d' = d0.shift 1))) ∧
+    (∀ f r, findContentI f (some k) d = (.ok r, d') →
+      ∃ d0, findContent f none d = (.ok r, d0) ∧
+        (d' = d0 ∨ (d.fkind = .interrupted ∧ Fired k d d0 ∧ d' = d0.shift 1))) :=
+  ⟨fun _ h => (byIndexReadI_ri ext a i pw).ok_is_faultfree (byIndexRead_tight ext a i pw).errOnFire h,
+   fun _ h => (byIndexReadB_ri ext a i pw).ok_is_faultfree (byIndexRead_tight ext a i pw).errOnFire h,
+   fun f _ h => (findContentI_ri f).ok_is_faultfree (findContent_tight f).errOnFire h⟩
+
+/-- **Under one fault of any kind every call of the seekable reader returns an error or the failure-free outcome**
+(`ZipArchive::new`): the outcome component is `Err`, or it is the outcome of the failure-free run. -/
+theorem open_fault_outcome_any_kind (k : Nat) (d : Dev) :
+    (∃ e, (openArchiveI (some k) d).1 = .err e) ∨ (openArchiveI (some k) d).1 = (openArchive none d).1 := by
+  rcases open_interrupted_trichotomy k d with ⟨_, h⟩ | ⟨_, _, h⟩ | ⟨_, _, _, h⟩
+  · right; rw [h]
+  · right; rw [h]
+  · left; exact h
+
+/-- **No panic, any kind**: `ZipArchive::new` never panics; `find_content` and the entry reads do not on a device
+shorter than 2^63 bytes with codecs that do not panic (the hypotheses of the hard-failure theorem of C05). -/
+theorem seekable_reader_no_panic_any_kind (ext : Ext) (hext : ExtNoPanic ext) (fa : Option Nat) (d : Dev) :
+    (openArchiveI fa d).1.isPanic = false ∧
+    (DevSane d → ∀ a i pw, (byIndexReadI ext a i pw fa d).1.isPanic = false ∧
+      (byIndexReadB ext a i pw fa d).1.isPanic = false) := by
+  refine ⟨?_, fun hd a i pw => ⟨?_, ?_⟩⟩
+  · have := (openArchiveI_ri.noPanic openArchive_noPanic).elim fa d
+    simpa using this
+  · have := (byIndexReadI_ri ext a i pw).noPanicOn (byIndexRead_noPanicOn ext hext a i pw) fa d hd
+    simpa using this
+  · have := (byIndexReadB_ri ext a i pw).noPanicOn (byIndexRead_noPanicOn ext hext a i pw) fa d hd
+    simpa using this
+
+/-- **The first I/O call of `ZipArchive::new` is a bare `seek(End(0))`: its failure is reported, `Interrupted`
+included** (nothing retries a `seek`). -/
+theorem open_first_seek_reported (d : Dev) :
+    openArchiveI (some d.calls) d = (.err (.io d.fkind), d.shift 1) :=
+  openArchiveI_first_seek d
+
+/-- … and the first I/O call of `find_content` (hence of every `by_index`): `seek(Start(header_start))`. -/
+theorem find_content_first_seek_reported (f : FileData) (d : Dev) :
+    findContentI f (some d.calls) d = (.err (.io d.fkind), d.shift 1) :=
+  findContentI_first_seek f d
+
+/-- hypotheses instantiated: on the witness archive call 5 (inside a `read_exact`) is absorbed - the second case of the
+trichotomy -, call 0 (the bare seek) is the third. -/
+example : Fired 5 (Dev.ofBytesK zip64Zero .interrupted) (openArchive none (Dev.ofBytesK zip64Zero .interrupted)).2 ∧
+    (openArchiveI (some 5) (Dev.ofBytesK zip64Zero .interrupted)).2.calls =
+      (openArchive none (Dev.ofBytesK zip64Zero .interrupted)).2.calls + 1 ∧
+    C05.isErr (openArchiveI (some 0) (Dev.ofBytesK zip64Zero .interrupted)).1 = true := by
+  refine ⟨by decide +kernel, by decide +kernel, by decide +kernel⟩
 
 /-- **`read_exact_interrupted`**: an `Interrupted` failure of a call `read_exact` makes is invisible - the failure-free
 result and device, one more call counted. -/
